@@ -35,6 +35,16 @@ PROGRAMS = [
 
 
 def tokens_of(text):
+    """(type, text, start, end, depth_before, depth_after) of the tokens of a text that the REAL parser accepts (None if it
+    does not), located with the independent tokeniser of spec/reflang.py: the places where a rewrite applies must not
+    depend on the lexer under test (a lexer that swallows a line break would otherwise hide that very line break)."""
+    if tokens_of_real(text) is None:
+        return None
+    from spec import reflang
+    return reflang.ref_tokens_pos(text)
+
+
+def tokens_of_real(text):
     """(type, value, start, end, depth_before, depth_after) of every token the real lexer hands to the real parser while
     SqParser.parse(text) runs (None if that fails).  The lexer is driven by parse() itself, so whatever state parse()
     prepares on it (or on a clone of it) is prepared here too."""
